@@ -545,6 +545,8 @@ def model_outcome(reply, g):
         if k == 'hang':
             return ('timeout', None)
         return ('exc', EXN[int(k[1])] if int(k[1]) < len(EXN) else 'Foreign')
+    if reply == 'timeout' or reply[0] == 'timeout':
+        return ('recursion', None)      # no verdict: treated like fuel exhaustion
     if reply[0] == 'error':
         return ('model-error', reply[1])
     raise ValueError(reply)
